@@ -558,6 +558,10 @@ func (reg typeRegistry) characterizeFuncDetails(fm *provider, cc charContext) (*
 		}
 	} else {
 		v := reflect.ValueOf(fm.fn)
+		if v.Kind() == reflect.Func && v.IsNil() {
+			// a nil func would be accepted as an injector and panic when called
+			return nil, fm.errorf("is a nil function")
+		}
 		var isNil bool
 		//nolint:exhaustive // on purpose
 		switch v.Type().Kind() {
